@@ -109,7 +109,7 @@ def run(ck):
                     c = json.loads(line)
                     run_scenario(ck, binp, c["scenario"], c.get("readers", 8), c.get("ms", 400), c.get("rounds", 60), "corpus%d" % i)
                     i += 1
-    readers, ms, rounds = (8, 1500, 150) if ck.tier == "quick" else (16, 20000, 3000)
+    readers, ms, rounds = (8, 1500, 150) if ck.tier == "quick" else (16, 10000, 500)
     for s in SCENARIOS:
         run_scenario(ck, binp, s, readers, ms, rounds, s)
     ck.cov["rule"] = ("evaluations = operations completed by the stress scenarios under the race detector (cache: N readers on "
